@@ -53,6 +53,7 @@ Init ==
 
 (* ------------------------------ generation ------------------------------ *)
 Sparse == mode \in {"sparse", "cap", "overcap"}
+Budget == IF mode = "sparse" THEN K ELSE 0   \* cap / overcap walks carry no optional element
 
 (* option choices of an item: the default always, any other once per walk *)
 TagChoices(it) == {it.tags[1]} \cup (IF nalt = 0 THEN Range(it.tags) ELSE {})
@@ -67,7 +68,7 @@ Copies(tag, n) == [i \in 1..n |-> Tok(tag)]
 
 GenField(it) ==
   \/ \* present once
-     /\ it.k = "F" \/ ~Sparse \/ nopt < K
+     /\ it.k = "F" \/ ~Sparse \/ nopt < Budget
      /\ \E t \in TagChoices(it) :
           /\ toks' = Append(toks, Tok(t))
           /\ nalt' = IF t = it.tags[1] THEN nalt ELSE 1
@@ -78,7 +79,7 @@ GenField(it) ==
 
 GenRepeat(it) ==
   \E n \in (IF Sparse
-            THEN {it.min} \cup (IF nopt < K THEN {it.min + 1} ELSE {})
+            THEN {it.min} \cup (IF nopt < Budget THEN {it.min + 1} ELSE {})
             ELSE {IF it.max >= 2 THEN (IF it.min > 2 THEN it.min ELSE 2) ELSE it.max}) :
      /\ toks' = toks \o Copies(it.tags[1], n)
      /\ nopt' = IF n > it.min THEN nopt + 1 ELSE nopt
@@ -191,7 +192,7 @@ RejectNamesCulprit ==
      /\ (muts[1].k = "bad" /\ mode # "overcap") =>
            (verdict.res = "reject" /\ verdict.kind = "invalid" /\ verdict.tag = muts[1].t)
      /\ (muts[1].k = "insf" /\ mode # "overcap") =>
-           (verdict.res = "reject" /\ verdict.kind \in {"unexpected", "missing"})
+           (verdict.res = "reject" /\ verdict.kind \in {"unexpected", "missing", "missingseq"})
 
 (* a foreign tag is never consumed *)
 ForeignNeverConsumed == \A i \in 1..Len(out) : out[i].tag # Foreign
